@@ -151,8 +151,8 @@ func extList(x *der.Cert) *der.Node {
 func init() {
 	var nSeeds, nGen int
 	mon.Register(&mon.Check{
-		ID:   "C17",
-		Rule: "evaluations = Lint*Ex calls; each base certificate (one signature bit flipped so that no variant is self-signed) is compared, status by status, with re-encodings that permute its SAN GeneralNames (all permutations up to 4 entries, rotations/reversal/seeded shuffles above) or its extension list (certificates with a repeated extension OID excluded). Bases: generated TLS / S-MIME certificates whose SAN lists are drawn from a labelled pool (compliant, non-compliant, unparseable entries of every GeneralName kind), corpus certificates, hostile mutants. distinct_nontrivial = bases with >= 1 permuted variant compared.",
+		ID:          "C17",
+		Rule:        "evaluations = Lint*Ex calls; each base certificate (one signature bit flipped so that no variant is self-signed) is compared, status by status, with re-encodings that permute its SAN GeneralNames (all permutations up to 4 entries, rotations/reversal/seeded shuffles above) or its extension list (certificates with a repeated extension OID excluded). Bases: generated TLS / S-MIME certificates whose SAN lists are drawn from a labelled pool (compliant, non-compliant, unparseable entries of every GeneralName kind), corpus certificates, hostile mutants. distinct_nontrivial = bases with >= 1 permuted variant compared.",
 		Assumptions: []string{"status only is compared, as the property states", "permuted encodings the parser rejects are skipped and counted"},
 		Setup: func(c *mon.Ctx) error {
 			if err := setupCommon(c); err != nil {
